@@ -714,7 +714,7 @@ func (x *txnCtx) avoidWrite(off uint32, col ColSpec, kind mopKind) (mopKind, boo
 		}
 		w.noteTrigger("put-delete")
 	}
-	if col.Merge == "concat" || col.Merge == "sum" {
+	if col.Merge == "concat" || col.Merge == "short" || col.Merge == "sum" {
 		afterMerge := false
 		for _, o := range x.mt.Ops {
 			afterMerge = afterMerge || o.Off == off && o.Col == col.Name && o.Kind == mMerge
